@@ -70,12 +70,22 @@ type Exec struct {
 	usedSpecs map[string]bool
 	replay    *ReplayInfo
 	curCall   *ssa.CallCommon
+	elemInfo   map[string]elemRef   // element address -> (backing array, index)
+	appendInfo map[string]*appendRec // backing array allocated by append -> its sources
+}
+
+type elemRef struct{ arr, idx Term }
+
+type appendRec struct {
+	s1, s2 [3]Term // (arr, off, len) of the two source slices
+	snap   *snapshot
+	elem   types.Type
 }
 
 func newExec(p *Program, fn *ssa.Function, fs *FuncSpec) *Exec {
 	return &Exec{prog: p, fn: fn, fname: p.relName(fn), spec: fs, d: newDecls(), nameCount: map[string]int{},
 		initHeaps: map[string]*heapNode{}, typeCache: map[string]types.Type{}, loops: map[*ssa.BasicBlock]*loopInfo{},
-		implFacts: map[string]bool{}, debugRefs: map[*ssa.Function][]*ssa.DebugRef{}, maxPaths: 6000, usedSpecs: map[string]bool{}}
+		implFacts: map[string]bool{}, elemInfo: map[string]elemRef{}, appendInfo: map[string]*appendRec{}, debugRefs: map[*ssa.Function][]*ssa.DebugRef{}, maxPaths: 6000, usedSpecs: map[string]bool{}}
 }
 
 func (x *Exec) globalAddr(o types.Object) Term {
@@ -776,7 +786,9 @@ func (x *Exec) step(st *State, b *ssa.BasicBlock, idx int, in ssa.Instruction) b
 		case *types.Slice:
 			x.oblige(st, "index", describe(in.X), tAnd("(<= 0 "+i.L[0]+")", "(< "+i.L[0]+" "+base.L[2]+")"), x.spec.Props, "index in range", in.Pos())
 			st.assume(tAnd("(<= 0 "+i.L[0]+")", "(< "+i.L[0]+" "+base.L[2]+")"))
-			x.setReg(st, in, Val{T: in.Type(), L: []Term{extendIdx(base.L[0], tAddInt(base.L[1], i.L[0]))}})
+			ea := extendIdx(base.L[0], tAddInt(base.L[1], i.L[0]))
+			x.elemInfo[ea] = elemRef{arr: base.L[0], idx: tAddInt(base.L[1], i.L[0])}
+			x.setReg(st, in, Val{T: in.Type(), L: []Term{ea}})
 		case *types.Pointer:
 			arr := bt.Elem().Underlying().(*types.Array)
 			x.nilCheck(st, base, describe(in.X), in.Pos())
